@@ -684,9 +684,11 @@ class ModelHist(Engine):
         common = ("script = vocabulary (2-level types, objects, 4-7 fluents) + 12-45 model-building operations "
                   "(add_fluent with/without default, add_object, add_action instantaneous/durative, add effect / "
                   "increase / decrease / precondition / simulated effect to an action, goals, timed goals, timed effects, "
-                  "trajectory constraints, metrics, set_initial_value, contingent constraints, ActionInstance), ~25% of "
+                  "trajectory constraints, all four metric kinds, set_initial_value, contingent constraints and sensing actions with observed "
+                  "fluents, HTN tasks / methods / subtasks, multi-agent agents / fluents / actions / goals, ActionInstance; bounded real types "
+                  "with fractional bounds, per-type defaults keyed by unbounded types), ~25% of "
                   "them made faulty on purpose (incompatible value of every kind, conflicting effects of every pairing, "
-                  "duplicate names); ")
+                  "duplicate names incl. names of user types, fluents and objects); ")
         if self.prop == "C22":
             return common + ("clone taken at 1-3 seeded points; each later operation is delivered to original and clone "
                              "(in seeded order) or to one side only. non-trivial = >= 1 rejected operation delivered to "
@@ -698,7 +700,8 @@ class ModelHist(Engine):
                              "distinct = digest of the (operation kind, outcome class) sequence")
         return ("script = one container kind (instantaneous action / one timing of a durative action / one timing of "
                 "the problem) + a multiset of 2-5 insertions (assign/increase/decrease, conditional or not, same or "
-                "different fluents and values, forall, simulated effect) applied to fresh containers in 2-6 seeded "
+                "different fluents and values incl. Int n vs explicit Real n, forall, simulated effect) applied to fresh containers "
+                "(in 30% of the scripts replaced by their clone() after the k-th insertion of every order) in 2-6 seeded "
                 "permutations (all when <= 4 insertions) -- same conflict verdict required -- and then 3-8 more "
                 "insertions on the first container with a shadow container receiving only the accepted ones. non-trivial "
                 "= some insertion was rejected AND >= 2 later insertions were judged against the shadow; distinct = "
@@ -1369,7 +1372,11 @@ class ModelHist(Engine):
                 saw_one_sided = True
                 ctx.probe("one-sided-op")
                 for t in to:
-                    if results[t][0] == "ok":
+                    # (a refused operation may still have changed its target -- add_action appends the action before
+                    # it registers the parameter types, which can raise: C22 does not promise atomic refusals)
+                    if results[t][0] == "ok" or snapshot(reps[t].p) != snaps_before[t]:
+                        if results[t][0] != "ok":
+                            ctx.probe("refused-operation-changed-its-target")
                         for r in others:
                             in_sync[frozenset((t, r))] = False
             # ---- C22: same acceptance, still equal
